@@ -158,7 +158,8 @@ class Parser:
                     # passed into 'storing unknown stuff' territory (e.g. on a
                     # core-args pass, handling what are going to be task args)
                     have_flag = (
-                        token in machine.context.flags
+                        machine.context is not None
+                        and token in machine.context.flags
                         and machine.current_state != "unknown"
                     )
                     if have_flag and machine.context.flags[token].takes_value:
@@ -189,7 +190,10 @@ class Parser:
             # original token.)
             if machine.waiting_for_flag_value:
                 optional = machine.flag and machine.flag.optional
-                subtoken_is_valid_flag = token in machine.context.flags
+                subtoken_is_valid_flag = (
+                    machine.context is not None
+                    and token in machine.context.flags
+                )
                 if not (optional and subtoken_is_valid_flag):
                     token = orig
                     mutations = []
